@@ -34,7 +34,7 @@ def main():
             codes[tag] = r.returncode
     finally:
         shutil.rmtree(tmp, ignore_errors=True)
-    rnd = {"d": 4, "e": 4, "f": 5, "g": 5}.get(sid[-1], 4)
+    rnd = {"d": 4, "e": 4, "f": 5, "g": 5}.get(sid[-1], 5)
     meta = {
         "id": sid,
         "property": prop,
